@@ -14,7 +14,8 @@ from .. import semantics
 def operand_cases(tname):
     cls = semantics.ORACLE[tname][0]
     if cls == semantics.ANY:
-        return [()]
+        # constants ignore their operands but may carry them (circuit search emits two)
+        return [(), ('x', 'y'), ('x', 'x'), ('in0', 'x')]
     if cls[0] == 'fixed' and cls[1] == 1:
         return [('x',)]
     if cls[0] == 'fixed':
@@ -130,5 +131,4 @@ def run(ck: Checker):
         good = snap and body_ok
     ck.check(good, 'C14.SNAP', circ, ib, 'into_bench converts every gate of a snapshot of the gate map',
              'into_bench does not iterate a copy of self.gates calling convert_gate(gate, self) unconditionally', construct='into_bench loop')
-    ck.assume('constants carry no operands (nothing in the library creates one with operands)')
     ck.assume('emplace_gate/_add_user/_remove_user behave as modelled in rewrites.FakeCircuit (their own shape is checked by C02.IDX)')
